@@ -926,7 +926,8 @@ theorem copyOf_getRegion {fs : FS} {g : String} {hs : H5File} (hg : getFile fs g
   refine ⟨0, fun r => ?_⟩
   rw [lookupK_getRegion]
   unfold lookupE; rw [hg]
-  cases lookupK hs.entries (S ++ r) <;> simp [Entry.shift_zero]
+  simp only
+  cases hk : lookupK hs.entries (S ++ r) <;> simp [Entry.shift_zero]
 
 theorem copyOf_shift {fs : FS} {g : String} {hs : H5File} (hg : getFile fs g = some hs) (S : Path) (d : Nat) :
     CopyOf fs g S (shiftOids d (getRegion hs.entries S)) := by
@@ -990,4 +991,295 @@ theorem afterOpen_wf {fs : FS} (hw : WF fs) (df : String) (ow : Bool) : WF (afte
   split
   · exact wf_setFile hw wf_emptyFile
   · exact hw
+
+/-! ### `copy_reads_equal`, branch by branch -/
+
+theorem deepCopyTo_reads {fs1 : FS} (hw : WF fs1) {g : String} {S : Path} {df : String} {dp : Path} {fs' : FS}
+    (h : deepCopyTo fs1 g S df dp = (fs', .ok)) {c : Nat} (hr : ReadsAt fs1 (g, S) c) : Reads fs' df dp c := by
+  unfold deepCopyTo at h
+  cases hg : getFile fs1 g with
+  | none => simp [hg] at h
+  | some hs =>
+    simp only [hg] at h
+    cases hl : lookupK hs.entries S with
+    | none => simp [hl] at h
+    | some e =>
+      cases e with
+      | group o a =>
+        simp only [hl] at h
+        exact placed_copy_reads hw h (fun h1 => copyOf_shift hg S h1.next) hr
+      | dataset c' => simp [hl] at h
+      | soft t => simp [hl] at h
+      | ext g' t => simp [hl] at h
+
+theorem reads_at_resolved {fs : FS} {f : String} {p : Path} {c : Nat} (hr : Reads fs f p c)
+    {l : Loc} (hl : resolve fs f p = some l) : ReadsAt fs l c := by
+  obtain ⟨l', hl', hra⟩ := (reads_iff _ _ _ _).1 hr
+  have : l' = l := hl'.det ⟨LINKFUEL, hl⟩
+  exact this ▸ hra
+
+theorem copySame_reads {fs1 : FS} (hw : WF fs1) {sf : String} {sp dp : Path} {fs' : FS}
+    (h : copySame fs1 sf sp dp = (fs', .ok)) {c : Nat} (hr : Reads fs1 sf sp c) : Reads fs' sf dp c := by
+  unfold copySame at h
+  cases hres : resolve fs1 sf sp with
+  | none => simp [hres] at h
+  | some l =>
+    obtain ⟨g, S⟩ := l
+    simp only [hres] at h
+    exact deepCopyTo_reads hw h (reads_at_resolved hr hres)
+
+theorem softLinkSame_reads {fs1 : FS} (hw : WF fs1) {sf : String} {sp dp : Path} {fs' : FS}
+    (h : softLinkSame fs1 sf sp dp = (fs', .ok)) {c : Nat} (hr : Reads fs1 sf sp c) : Reads fs' sf dp c :=
+  placed_soft_reads hw h hr
+
+theorem extLink_reads {fs1 : FS} (hw : WF fs1) {sf : String} {sp : Path} {df : String} {dp : Path} {fs' : FS}
+    (h : extLink fs1 sf sp df dp = (fs', .ok)) {c : Nat} (hr : Reads fs1 sf sp c) : Reads fs' df dp c :=
+  placed_ext_reads hw h hr
+
+theorem unlink_ne_ok (fs : FS) (f : String) (p : Path) : unlink fs f p ≠ .error .ok := by
+  unfold unlink
+  repeat' split
+  all_goals simp
+
+/-- what a successful same-file hard link (before any `del`) did -/
+theorem hardLinkSame_ok {fs1 : FS} {sf : String} {sp dp : Path} {rename : Bool} {fs' : FS}
+    (h : hardLinkSame fs1 sf sp dp rename = (fs', .ok)) :
+    ∃ S hs fs2 D, resolve fs1 sf sp = some (sf, S) ∧ getFile fs1 sf = some hs ∧
+      IsGroup (lookupK hs.entries S) ∧
+      placeAt fs1 sf dp (fun h1 => (getRegion hs.entries S, h1.next)) .os = (fs2, .ok) ∧
+      destOf fs1 sf dp = some D ∧ under S D = false ∧
+      (if rename then unlink fs2 sf sp = .ok fs' else fs' = fs2) := by
+  unfold hardLinkSame at h
+  cases hres : resolve fs1 sf sp with
+  | none => simp [hres] at h
+  | some l =>
+    obtain ⟨g, S⟩ := l
+    simp only [hres] at h
+    by_cases hg : g = sf
+    · subst hg
+      simp only [ne_eq, not_true_eq_false, if_false] at h
+      cases hgf : getFile fs1 g with
+      | none => simp [hgf] at h
+      | some hs =>
+        simp only [hgf] at h
+        cases hl : lookupK hs.entries S with
+        | none => simp [hl] at h
+        | some e =>
+          cases e with
+          | dataset c' => simp [hl] at h
+          | soft t => simp [hl] at h
+          | ext g' t => simp [hl] at h
+          | group o a =>
+            simp only [hl] at h
+            cases hp : placeAt fs1 g dp (fun h1 => (getRegion hs.entries S, h1.next)) .os with
+            | mk fs2 oc =>
+              rw [hp] at h
+              cases oc with
+              | err e => simp at h
+              | corner w => simp at h
+              | ok =>
+                simp only at h
+                cases hd : destOf fs1 g dp with
+                | none => simp [hd] at h
+                | some D =>
+                  simp only [hd] at h
+                  by_cases hu : under S D = true
+                  · simp [hu] at h
+                  · simp only [hu] at h
+                    refine ⟨S, hs, fs2, D, rfl, rfl, ⟨o, a, hl⟩, hp, rfl, by simpa using hu, ?_⟩
+                    cases rename with
+                    | false => simp at h ⊢; exact h.symm
+                    | true =>
+                      simp only [if_true] at h ⊢
+                      cases hun : unlink fs2 g sp with
+                      | error o' =>
+                        simp [hun] at h
+                        exact absurd (h.2 ▸ hun) (unlink_ne_ok _ _ _)
+                      | ok fs3 => simp [hun] at h; rw [h]
+    · simp [hg] at h
+
+theorem hardLinkSame_reads {fs1 : FS} (hw : WF fs1) {sf : String} {sp dp : Path} {fs' : FS}
+    (h : hardLinkSame fs1 sf sp dp false = (fs', .ok)) {c : Nat} (hr : Reads fs1 sf sp c) : Reads fs' sf dp c := by
+  obtain ⟨S, hs, fs2, D, hres, hg, _, hp, _, _, hfin⟩ := hardLinkSame_ok h
+  simp only [Bool.false_eq_true, if_false] at hfin
+  subst hfin
+  exact placed_copy_reads hw hp (fun _ => copyOf_getRegion hg S) (reads_at_resolved hr hres)
+
+/-! ### `copy_reads_equal` -/
+
+/-- the prelude of `_copy`: what a run that got past opening both files looks like -/
+theorem copyOp_opened {fs : FS} {v : Variant} {sf : String} {sp : Path} {df : String} {dp : Path}
+    {ow link rename soft : Bool} {fs' : FS} (h : copyOp fs v sf sp df dp ow link rename soft = (fs', .ok)) :
+    (getFile fs sf).isSome ∧
+    ¬ ((((getFile fs df).isNone || ow) = true) ∧ sf = df) ∧
+    (if sf = df then
+      (if (link || rename) = true then hardLinkSame (afterOpen fs df ow) sf sp dp rename
+       else if soft = true then softLinkSame (afterOpen fs df ow) sf sp dp
+       else copySame (afterOpen fs df ow) sf sp dp)
+     else
+      (if link = true then ((afterOpen fs df ow), Outcome.err .os)
+       else if soft = true then extLink (afterOpen fs df ow) sf sp df dp
+       else copyCross (afterOpen fs df ow) v sf sp df dp rename)) = (fs', .ok) := by
+  unfold copyOp at h
+  by_cases hflags : ((link && rename) || (link && soft) || (rename && soft)) = true
+  · simp [hflags] at h
+  · simp only [hflags] at h
+    cases hsf : getFile fs sf with
+    | none => simp [hsf] at h
+    | some hsrc =>
+      simp only [hsf] at h
+      by_cases hopen : (((getFile fs df).isNone || ow) && decide (sf = df)) = true
+      · simp [hopen] at h
+      · simp only [hopen] at h
+        refine ⟨by simp, ?_, ?_⟩
+        · intro hc; apply hopen; simp [hc.1, hc.2]
+        · cases hc : dstCorner (afterOpen fs df ow) df dp with
+          | some why => simp [hc] at h
+          | none =>
+            simp only [hc] at h
+            exact h
+
+/-- **copy_reads_equal** (cp, ln, ln -s within a file or across files; destination other than
+the root of another file — see `copy_root_reads_equal`).  If the operation succeeds and did not
+truncate an existing destination file (`overwrite` on an existing file replaces that file, by
+definition), the destination reads what the source read before. -/
+theorem copy_reads_equal {fs : FS} (hw : WF fs) {v : Variant} {sf : String} {sp : Path} {df : String} {dp : Path}
+    {ow link soft : Bool} {fs' : FS}
+    (hT : ow = true → getFile fs df = none)
+    (hroot : sf ≠ df → dp ≠ [])
+    (h : copyOp fs v sf sp df dp ow link false soft = (fs', .ok))
+    {c : Nat} (hr : Reads fs sf sp c) : Reads fs' df dp c := by
+  obtain ⟨_, _, hb⟩ := copyOp_opened h
+  have hw1 := afterOpen_wf hw df ow
+  have hr1 : Reads (afterOpen fs df ow) sf sp c := hr.mono (afterOpen_sub hT)
+  by_cases hsame : sf = df
+  · subst hsame
+    simp only [if_true, Bool.or_false] at hb
+    by_cases hl : link = true
+    · simp only [hl, if_true] at hb
+      exact hardLinkSame_reads hw1 hb hr1
+    · simp only [hl] at hb
+      by_cases hs : soft = true
+      · simp only [hs, if_true] at hb
+        exact softLinkSame_reads hw1 hb hr1
+      · simp only [hs] at hb
+        exact copySame_reads hw1 hb hr1
+  · simp only [hsame, if_false] at hb
+    by_cases hl : link = true
+    · simp [hl] at hb
+    · simp only [hl] at hb
+      by_cases hs : soft = true
+      · simp only [hs, if_true] at hb
+        exact extLink_reads hw1 hb hr1
+      · simp only [hs] at hb
+        unfold copyCross at hb
+        cases hres : resolve (afterOpen fs df ow) sf sp with
+        | none => simp [hres] at hb; split at hb <;> simp at hb
+        | some l =>
+          obtain ⟨g, S⟩ := l
+          simp only [hres, hroot hsame, if_false] at hb
+          cases hd : deepCopyTo (afterOpen fs df ow) g S df dp with
+          | mk fs2 oc =>
+            rw [hd] at hb
+            cases oc with
+            | err e => simp at hb
+            | corner w => simp at hb
+            | ok =>
+              simp only [Bool.false_and, Bool.false_eq_true, if_false] at hb
+              have : fs2 = fs' := (Prod.mk.inj hb).1
+              subst this
+              exact deepCopyTo_reads hw1 hd (reads_at_resolved hr1 hres)
+
+/-! ### `copy_frame` -/
+
+/-- only file `f` may differ between `fs` and `fs'` -/
+def OnlyFile (f : String) (fs fs' : FS) : Prop := ∀ g, g ≠ f → getFile fs' g = getFile fs g
+
+theorem OnlyFile.refl (f : String) (fs : FS) : OnlyFile f fs fs := fun _ _ => rfl
+
+theorem OnlyFile.setFile (f : String) (fs : FS) (h : H5File) : OnlyFile f fs (setFile fs f h) := by
+  intro g hg
+  rw [getFile_setFile]
+  have : ¬ f = g := fun e => hg e.symm
+  simp [this]
+
+theorem OnlyFile.trans {f : String} {a b c : FS} (h1 : OnlyFile f a b) (h2 : OnlyFile f b c) : OnlyFile f a c :=
+  fun g hg => (h2 g hg).trans (h1 g hg)
+
+theorem placeAt_not_ok {fs : FS} {f : String} {dp : Path} {new : H5File → Entries × Nat} {ex : ErrClass}
+    {fs' : FS} {oc : Outcome} (h : placeAt fs f dp new ex = (fs', oc)) (hne : oc ≠ .ok) : fs' = fs := by
+  unfold placeAt at h
+  split at h
+  · exact (Prod.mk.inj h).1.symm
+  · split at h
+    · exact (Prod.mk.inj h).1.symm
+    · split at h
+      · exact (Prod.mk.inj h).1.symm
+      · simp only at h
+        unfold linkRegion at h
+        split at h
+        · exact (Prod.mk.inj h).1.symm
+        · split at h
+          · exact (Prod.mk.inj h).1.symm
+          · exact absurd (Prod.mk.inj h).2.symm hne
+
+theorem placeAt_only {fs : FS} {f : String} {dp : Path} {new : H5File → Entries × Nat} {ex : ErrClass}
+    {fs' : FS} {oc : Outcome} (h : placeAt fs f dp new ex = (fs', oc)) : OnlyFile f fs fs' := by
+  by_cases hoc : oc = .ok
+  · subst hoc
+    obtain ⟨_, _, _, _, _, _, _, _, rfl⟩ := placeAt_ok h
+    exact OnlyFile.setFile _ _ _
+  · rw [placeAt_not_ok h hoc]; exact OnlyFile.refl _ _
+
+/-- `placeAt` never loses anything, whatever its outcome -/
+theorem placeAt_sub {fs : FS} (hw : WF fs) {f : String} {dp : Path} {new : H5File → Entries × Nat} {ex : ErrClass}
+    {fs' : FS} {oc : Outcome} (h : placeAt fs f dp new ex = (fs', oc)) : Sub fs fs' := by
+  by_cases hoc : oc = .ok
+  · subst hoc
+    obtain ⟨_, _, _, _, hs, _⟩ := placeAt_facts hw h
+    exact hs
+  · rw [placeAt_not_ok h hoc]; exact Sub.refl _
+
+theorem deepCopyTo_sub {fs1 : FS} (hw : WF fs1) {g : String} {S : Path} {df : String} {dp : Path} {fs' : FS}
+    {oc : Outcome} (h : deepCopyTo fs1 g S df dp = (fs', oc)) : Sub fs1 fs' ∧ OnlyFile df fs1 fs' := by
+  unfold deepCopyTo at h
+  split at h
+  · rw [← (Prod.mk.inj h).1]; exact ⟨Sub.refl _, OnlyFile.refl _ _⟩
+  · split at h
+    · exact ⟨placeAt_sub hw h, placeAt_only h⟩
+    · rw [← (Prod.mk.inj h).1]; exact ⟨Sub.refl _, OnlyFile.refl _ _⟩
+
+theorem copySame_sub {fs1 : FS} (hw : WF fs1) {sf : String} {sp dp : Path} {fs' : FS} {oc : Outcome}
+    (h : copySame fs1 sf sp dp = (fs', oc)) : Sub fs1 fs' ∧ OnlyFile sf fs1 fs' := by
+  unfold copySame at h
+  split at h
+  · rw [← (Prod.mk.inj h).1]; exact ⟨Sub.refl _, OnlyFile.refl _ _⟩
+  · exact deepCopyTo_sub hw h
+
+theorem hardLinkSame_sub {fs1 : FS} (hw : WF fs1) {sf : String} {sp dp : Path} {fs' : FS} {oc : Outcome}
+    (h : hardLinkSame fs1 sf sp dp false = (fs', oc)) : Sub fs1 fs' ∧ OnlyFile sf fs1 fs' := by
+  unfold hardLinkSame at h
+  split at h
+  · rw [← (Prod.mk.inj h).1]; exact ⟨Sub.refl _, OnlyFile.refl _ _⟩
+  · split at h
+    · rw [← (Prod.mk.inj h).1]; exact ⟨Sub.refl _, OnlyFile.refl _ _⟩
+    · split at h
+      · rw [← (Prod.mk.inj h).1]; exact ⟨Sub.refl _, OnlyFile.refl _ _⟩
+      · split at h
+        · rename_i hs _ _ _
+          split at h
+          · rename_i fs2 hp
+            have hsub := placeAt_sub hw hp
+            have honly := placeAt_only hp
+            split at h
+            · split at h
+              · rw [← (Prod.mk.inj h).1]; exact ⟨hsub, honly⟩
+              · simp only [Bool.false_eq_true, if_false] at h
+                rw [← (Prod.mk.inj h).1]; exact ⟨hsub, honly⟩
+            · rw [← (Prod.mk.inj h).1]; exact ⟨hsub, honly⟩
+          · rename_i r hr
+            rw [← h]
+            cases hp : placeAt fs1 sf dp (fun h1 => (getRegion hs.entries _, h1.next)) ErrClass.os with
+            | mk fs2 oc2 => exact ⟨placeAt_sub hw hp, placeAt_only hp⟩
+        · rw [← (Prod.mk.inj h).1]; exact ⟨Sub.refl _, OnlyFile.refl _ _⟩
 end Cooler.C15
